@@ -18,6 +18,13 @@ import (
 //   retry        the first nerr produce requests answer NotLeaderForPartition: retry levels, back-off
 //                (25 ms), metadata refresh (leader moves to broker 1 when there are two)
 //   unreachable  after the first answer the leader goes away: connection errors, retries, failures
+//   twolevel     the first message is bounced TWICE by its leader (NotLeaderForPartition; the first retry level has
+//                wound down in between, so the partition producer jumps from level 0 to level 2), and from the
+//                second bounce on the metadata has no leader (Metadata.Retry.Max = 0): the message fails, the
+//                level-2 chaser comes back and the flush of the levels below finds no leader. After the
+//                message's outcome and a pause the leader is back (heal = 1) or stays away; only then the
+//                observation is armed: nmsg more messages, Close at the k-th event. A partition producer left
+//                in a retry level nobody will flush parks these messages for good (shutdown hangs).
 //   slowerr      every produce request fails with a non-retriable error, the first answer is held until Close
 //                was invoked, and from then on the application receives slowly (30 ms between receives,
 //                ChannelBufferSize 0): the failing messages' errors are still being handed over while
@@ -45,6 +52,10 @@ func (s *prodScript) metadata(req *sarama.MetadataRequest) interface{} {
 	r := &sarama.MetadataResponse{Version: req.Version}
 	for _, b := range s.brokers {
 		r.AddBroker(b.Addr(), b.BrokerID())
+	}
+	if s.spec.Scen == "twolevel" && atomic.LoadInt32(&s.gone) == 1 {
+		r.AddTopicPartition(topic, 0, -1, nil, nil, nil, sarama.ErrLeaderNotAvailable)
+		return r
 	}
 	r.AddTopicPartition(topic, 0, leader, []int32{leader}, []int32{leader}, nil, sarama.ErrNoError)
 	return r
@@ -81,6 +92,14 @@ func (s *prodScript) handler(b *sarama.MockBroker) func(string, interface{}) int
 			case "retry":
 				if int(n) <= s.spec.p("nerr", 1) {
 					atomic.StoreInt32(&s.moved, 1)
+					return s.produceAnswer(req, sarama.ErrNotLeaderForPartition)
+				}
+			case "twolevel":
+				if n == 1 {
+					return s.produceAnswer(req, sarama.ErrNotLeaderForPartition)
+				}
+				if n == 2 {
+					atomic.StoreInt32(&s.gone, 1)
 					return s.produceAnswer(req, sarama.ErrNotLeaderForPartition)
 				}
 			case "slowerr":
@@ -121,19 +140,47 @@ func runProducer(spec Spec) Result {
 	cfg.Producer.Retry.Max = spec.p("rmax", 1)
 	cfg.Producer.Flush.Messages = spec.p("flush", 1)
 	cfg.Producer.Flush.Frequency = 5 * time.Millisecond
+	if spec.Scen == "twolevel" {
+		cfg.Metadata.Retry.Max = 0
+		cfg.Producer.Retry.Max = 3
+	}
 	p, err := sarama.NewAsyncProducer([]string{s.brokers[0].Addr()}, cfg)
 	if err != nil {
 		rc.note("NewAsyncProducer: %v", err)
 		res.Notes = rc.notes
 		return res
 	}
-	rc.arm()
-	rc.startSettle(settle)
-
 	nmsg := spec.p("nmsg", 2)
 	var obs []string
 	log := func(x string) { obs = append(obs, x) }
 	sent, succ, errs := 0, 0, 0
+	if spec.Scen == "twolevel" {
+		// before the observation is armed: one message through two retry levels into the leaderless cluster
+		select {
+		case p.Input() <- &sarama.ProducerMessage{Topic: topic, Partition: 0, Value: sarama.StringEncoder("first")}:
+			sent++
+		case <-time.After(5 * time.Second):
+			rc.note("twolevel: the first message was not accepted")
+		}
+		select {
+		case <-p.Errors():
+			errs++
+			log("Ev 1")
+		case <-p.Successes():
+			succ++
+			log("Ev 0")
+			rc.note("twolevel: the first message succeeded (script not reached)")
+		case <-time.After(5 * time.Second):
+			rc.note("twolevel: no outcome for the first message")
+		}
+		time.Sleep(80 * time.Millisecond) // the level-2 chaser returns, the levels below are flushed
+		if spec.p("heal", 1) == 1 {
+			atomic.StoreInt32(&s.gone, 0)
+		}
+		nmsg += sent
+	}
+	rc.arm()
+	rc.startSettle(settle)
 	complete := false
 	done := make(chan struct{})
 	rc.guard("producer-app", func() {
